@@ -39,7 +39,9 @@ def sequences(tier):
     out = []
     for st in starts:
         for n in range(1, nmax + 1):
-            for gp in itertools.product(gaps, repeat=n - 1):
+            # four-message logs: a subset of the gaps (the full product takes the thorough tier well over an hour)
+            gaps_n = gaps if n <= 3 else [0, 86400, 40 * 86400, 365 * 86400 - 25 * 3600 - 1800]
+            for gp in itertools.product(gaps_n, repeat=n - 1):
                 seq = [st]
                 for g in gp:
                     seq.append(seq[-1] + g)
